@@ -124,13 +124,6 @@ impl DocumentBuilder {
         }
         let value_span = value.into();
         let value = parse_attribute(value.as_str().into(), value.start())?.to_string();
-        // if this is an xml:id we want to apply xml:id normalization as described here
-        // https://www.w3.org/TR/xml-id/#id-avn
-        let value = if name == "id" && prefix == "xml" {
-            normalize_xml_id(&value)
-        } else {
-            value
-        };
         attributes.push(AttributeBuilder {
             prefix: prefix.to_string(),
             name: name.to_string(),
@@ -201,9 +194,15 @@ impl DocumentBuilder {
                 ));
             }
             seen_name_ids.push(name_id);
+            let mut attribute_builder = attribute_builder;
             // if we see xml:id, check that they aren't a duplicate
             // and keep track of all node ids that have an xml:id
             if name_id == self.xml_id_id {
+                // apply xml:id normalization as described here
+                // https://www.w3.org/TR/xml-id/#id-avn
+                // (it is the expanded name that counts, whatever prefix is
+                // bound to the XML namespace)
+                attribute_builder.value = normalize_xml_id(&attribute_builder.value);
                 if self.seen_ids.contains(&attribute_builder.value) {
                     return Err(ParseError::DuplicateId(
                         attribute_builder.value,
